@@ -215,8 +215,9 @@ def build_unit(unit, quiet=True):
                         linemap[len(lines)] = {'fn': fn, 'kind': kind, 'tags': tags, 'expr': subst(expr, fm), 'text': text}
                 asg = e.get('assigns')
                 if asg is not None:
-                    lines.append('__CPROVER_assigns(%s)' % subst(asg, fm).replace('\n', ' '))
-                    linemap[len(lines)] = {'fn': fn, 'kind': 'assigns', 'tags': [], 'expr': subst(asg, fm), 'text': ''}
+                    for a1 in ([asg] if isinstance(asg, str) else asg):
+                        lines.append('__CPROVER_assigns(%s)' % subst(a1, fm).replace('\n', ' '))
+                        linemap[len(lines)] = {'fn': fn, 'kind': 'assigns', 'tags': [], 'expr': subst(a1, fm), 'text': ''}
             continue
         m = re.match(r'^\s*/\*@LOOP (\S+)\.(\d+)@\*/\s*$', ln)
         if m:
@@ -226,7 +227,8 @@ def build_unit(unit, quiet=True):
             if lp is not None:
                 fm = fmeta[fn]
                 if lp.get('assigns') is not None:
-                    lines.append('__CPROVER_assigns(%s)' % subst(lp['assigns'], fm).replace('\n', ' '))
+                    for a1 in ([lp['assigns']] if isinstance(lp['assigns'], str) else lp['assigns']):
+                        lines.append('__CPROVER_assigns(%s)' % subst(a1, fm).replace('\n', ' '))
                 for c in as_list(lp.get('invariant')):
                     tags, expr, text = clause(c)
                     lines.append('__CPROVER_loop_invariant(%s)' % subst(expr, fm).replace('\n', ' '))
@@ -288,6 +290,10 @@ def build_unit(unit, quiet=True):
     cfile = os.path.join(d, 'unit.c')
     with open(cfile, 'w') as f:
         f.write('\n'.join(lines) + '\n')
+    rc, so, se = run(['goto-cc', '-c', '-o', os.path.join(d, 'syntax.gb'), cfile])
+    if rc != 0:
+        raise Undecided('assembled program of unit %s does not compile (missing model / spec error):\n%s' % (unit, (se or so)[-3000:]))
+    os.remove(os.path.join(d, 'syntax.gb'))
     # call graph closure for contract replacement
     contracted = {fn for fn, e in entries.items() if not e.get('inline') and not e.get('no_replace')}
     repl = {}
@@ -398,6 +404,18 @@ def verify_fn(info, fn, solver=None):
     return res
 
 
+def render_val(v, depth=0):
+    if not isinstance(v, dict):
+        return v
+    if 'data' in v:
+        return v['data']
+    if 'members' in v and depth < 4:
+        return {m.get('name'): render_val(m.get('value'), depth + 1) for m in v['members']}
+    if 'elements' in v and depth < 4:
+        return [render_val(e.get('value'), depth + 1) for e in v['elements'][:8]]
+    return v.get('name')
+
+
 def reduce_trace(tr):
     out = []
     for st in tr:
@@ -406,14 +424,16 @@ def reduce_trace(tr):
             if lhs.startswith('__') or lhs.startswith('dfcc') or 'return_value' in lhs or lhs.startswith('tmp_') or '$' in lhs \
                     or lhs in ('set', 'ptr', 'size', 'write_set_postconditions', 'write_set_to_link', 'idx', 'hash', 'object_id') or 'write_set' in lhs:
                 continue
+            if lhs.startswith('car.') or lhs.startswith('car_') or lhs in ('c', 'l', 'm', 'a', 'o', 'p', 'x', 'r'):
+                continue
             v = st.get('value', {})
-            val = v.get('data', v.get('name'))
+            val = render_val(v)
             loc = st.get('sourceLocation', {})
             out.append({'lhs': lhs, 'value': val, 'line': loc.get('line'), 'function': loc.get('function')})
         elif st.get('stepType') == 'failure':
             loc = st.get('sourceLocation', {})
             out.append({'failure': st.get('reason'), 'line': loc.get('line'), 'function': loc.get('function')})
-    return out[-120:]
+    return out[-200:]
 
 
 TAG_RE = re.compile(r'^\s*\[([^\]]*)\]')
